@@ -354,6 +354,7 @@ func ownerOf(addr ssa.Value, cts map[*types.Named]bool) *types.Named {
 
 func rulesC14(c *Ctx) {
 	p := c.P
+	ruleC14Thread(c)
 	cts := c.cursorTypes()
 	c.Note(fmt.Sprintf("cursor types found: %d", len(cts)))
 	kp := newKeyProv(c)
@@ -1089,4 +1090,99 @@ func ruleC14Union(c *Ctx) {
 	if bad == 0 {
 		c.OK("C14.UNION", name, p.Pos(fn.Pos()), fmt.Sprintf("decision table complete: %d rows (validity × compare × direction) choose the right element and advance the right inputs", rows))
 	}
+}
+
+// ruleC14Thread: the iteration direction a caller asks for is the direction every cursor below is built
+// with: inside a function that has a direction parameter (a bool named forward), each call that takes a
+// direction (callee parameter named forward) is handed that parameter — not a constant, not its negation.
+// A union built "forward" over descending inputs neither orders nor de-duplicates.
+func ruleC14Thread(c *Ctx) {
+	p := c.P
+	dirParam := func(sig *types.Signature) int {
+		for i := 0; i < sig.Params().Len(); i++ {
+			v := sig.Params().At(i)
+			if b, ok := v.Type().Underlying().(*types.Basic); ok && b.Kind() == types.Bool && v.Name() == "forward" {
+				return i
+			}
+		}
+		return -1
+	}
+	n := 0
+	for _, fn := range c.prodFuncs("ast", "boltz", "objectz") {
+		// the direction in scope: own parameter, or the one captured from the enclosing function
+		var own ssa.Value
+		if i := dirParam(fn.Signature); i >= 0 {
+			off := 0
+			if fn.Signature.Recv() != nil {
+				off = 1
+			}
+			if i+off < len(fn.Params) {
+				own = fn.Params[i+off]
+			}
+		}
+		if own == nil {
+			for _, fv := range fn.FreeVars {
+				if fv.Name() == "forward" {
+					if b, ok := derefType(fv.Type()).Underlying().(*types.Basic); ok && b.Kind() == types.Bool {
+						own = fv
+					}
+				}
+			}
+		}
+		if own == nil {
+			continue
+		}
+		for _, call := range callsIn(fn) {
+			cc := call.Common()
+			var sig *types.Signature
+			if cc.IsInvoke() {
+				sig, _ = cc.Method.Type().(*types.Signature)
+			} else if cal, _ := calleeOf(cc); cal != nil {
+				sig, _ = cal.Type().(*types.Signature)
+			} else if named, isN := cc.Value.Type().(*types.Named); isN && named.Obj().Name() == "SetCursorProvider" {
+				sig, _ = named.Underlying().(*types.Signature)
+			}
+			if sig == nil {
+				continue
+			}
+			i := dirParam(sig)
+			if i < 0 {
+				continue
+			}
+			args := cc.Args
+			if !cc.IsInvoke() && sig.Recv() != nil {
+				args = args[1:]
+			}
+			if i >= len(args) {
+				continue
+			}
+			n++
+			arg := args[i]
+			ok := arg == own
+			if !ok {
+				// a spilled parameter / captured variable read back
+				if ld, isLd := arg.(*ssa.UnOp); isLd && ld.Op == token.MUL {
+					if ld.X == own {
+						ok = true
+					} else if al, isAl := ld.X.(*ssa.Alloc); isAl {
+						only := true
+						cnt := 0
+						for _, r := range *al.Referrers() {
+							if st, isSt := r.(*ssa.Store); isSt && st.Addr == ssa.Value(al) {
+								cnt++
+								if st.Val != own {
+									only = false
+								}
+							}
+						}
+						ok = only && cnt > 0
+					}
+				}
+			}
+			c.Check(ok, "C14.THREAD", FnName(fn)+": "+describeInstr(call), p.Pos(call.Pos()), "the direction handed down is the direction this function was asked for",
+				"this function has a direction parameter but hands "+describeValue(arg)+" to a callee that takes a direction: for a reverse request the cursor built here is not in (descending) key order and may yield elements more than once")
+		}
+	}
+	c.CallSites(n)
+	c.Floor("C14.THREAD", 6)
 }
